@@ -781,9 +781,9 @@ var gens = map[string]genFn{
 		}
 		return out
 	},
-	"setunion":               genSetOp,
-	"setintersection":        genSetOp,
-	"setsubtract":            genSetOp2,
+	"setunion":        genSetOp,
+	"setintersection": genSetOp,
+	"setsubtract":     genSetOp2,
 	"setsymmetricdifference": func(x g) []spec.V {
 		if x.oneIn(8, "nottwo") {
 			return genSetOp(x)
